@@ -39,7 +39,7 @@ gatedecl: "gate" ID idlist "{"
             | "gate" ID "(" ")" idlist "{"
             | "gate" ID "(" idlist ")" idlist "{"
 goplist: uopp
-            | "barrierp" idlist ";"
+            | "barrier" idlist ";"
             | goplist uopp
             | goplist "barrier" idlist ";"
 qop: uop
